@@ -34,6 +34,7 @@ type sizeKey struct {
 }
 
 func runC13(c *core.Ctx) {
+	bandFingerprints(c, "band-tables")
 	cfgs := allBandCfgs()
 	// sizes of every (config, version, revision, dr) for the repeater relation; cheap enough to compute in every worker that needs it
 	for ci, cfg := range cfgs {
